@@ -341,7 +341,7 @@ pub fn run_big(rep: &mut Report, rng: &mut Rng) {
 pub fn run(ctx: &Ctx) -> Report {
     let mut rep = Report::new("C02");
     rep.corr_module = "Tlv".into();
-    rep.expect_classes(&["parse:accepted", "parse:rejected", "parse:accepted-nonempty"]);
+    rep.expect_classes(&["parse:accepted", "parse:rejected", "parse:accepted-nonempty", "parse:large", "address-offset:5", "override-slice-constant", "same-object:refilled-hole"]);
     let mut rng = Rng::new(ctx.seed.wrapping_mul(77).wrapping_add(2));
     // corpus: the shapes named by the property
     let e1: Vec<u8> = [&TAGS[0][..], &[3, 0, 0, 0], &[9, 8, 7]].concat();
